@@ -272,6 +272,19 @@ class Check:
                                 viols.append(Violation(PROP, "C08.sorted", ["C08.sorted", case["order"]["key"].split("(")[0], "desc" if desc else "asc"],
                                                        {"query": qg, "seed": seed, "values": [v.decode("utf-8", "replace") for v in vals][:12]}))
                                 return viols
+            # the same grouping with only aggregates in the select list: one row per group all the same
+            if reference is not None and not case["order"]:
+                qn = "select " + ", ".join(aggs) + fromc + wherec + " group by " + ", ".join(keys) + " into list"
+                rn = sb.run([qn], plan=p0)
+                if rn.sim or rn.status != 0 or rn.signal is not None:
+                    viols.append(Violation(PROP, "C08.run", ["C08.run", "abnormal_end", ksig], {"query": qn, "outcome": rn.summary()}))
+                    return viols
+                gotn = collections.Counter(rn.rows(len(aggs)))
+                wantn = collections.Counter(tuple(row[nk:]) for row in ref_rows)
+                if gotn != wantn:
+                    viols.append(Violation(PROP, "C08.keys", ["C08.keys", "select_list_without_keys", ksig],
+                                           {"query": qn, "rows": sum(gotn.values()), "groups": sum(wantn.values())}))
+                    return viols
             # C08.restrict: each group equals the ungrouped aggregate query restricted to key = value
             if reference is not None:
                 done = 0
